@@ -399,7 +399,7 @@ class ExpressionPrinter(object):
             delimiter.new_item()
 
             self.printer.operator('**')
-            self.visit(node.kwargs)
+            self._expression(node.kwargs)
 
         self.printer.delimiter(')')
 
